@@ -37,9 +37,20 @@ def sh(cmd, timeout=None, env=None, cwd=None):
         return 124, out + '\nTIMEOUT\n'
 
 
+def build_overrides():
+    """compile the TLC module override (spec/java/GF2.java -> spec/GF2.class) if missing or stale"""
+    src, cls = V + '/spec/java/GF2.java', V + '/spec/GF2.class'
+    if os.path.exists(cls) and os.path.getmtime(cls) >= os.path.getmtime(src):
+        return
+    rc, out = sh(['javac', '-cp', '/opt/veriftools/tla/tla2tools.jar', '-d', V + '/spec', src], timeout=120)
+    if rc != 0:
+        raise Infra('javac GF2.java failed:\n' + out)
+
+
 def build(cfgs):
     """(re)build every configuration from the current working tree of $VERIF_SRC (default /repo)"""
     os.makedirs(BUILD, exist_ok=True)
+    build_overrides()
 
     def one(cfg):
         lock = open(os.path.join(BUILD, '.lock_' + cfg), 'w')
